@@ -1635,6 +1635,7 @@ class Exec(object):
         self.pc.append(sym.LLEN(t.t) == sym.LLEN(l.t) - 1)
         self.pc.append(z3.ForAll([i], z3.Implies(z3.And(0 <= i, i < sym.LLEN(t.t)), sym.LAT(t.t, i) == sym.LAT(l.t, i + 1)), patterns=[sym.LAT(t.t, i)], qid="list_tail"))
         self.pc.append(l.t == sym.LCONS(sym.LAT(l.t, 0), t.t))
+        self.last_list_tail = t            # ghost: lets a witnessed postcondition name the tail
         return t
 
     def s_If(self, st, fr):
